@@ -92,6 +92,8 @@ class Built:
 def build(samples, opts=None, name="Root", extra_models=None, merge=True, names=True):
     """samples -> final registry. extra_models: list of (name, samples) for further root models."""
     opts = norm_opts(opts)
+    if name == "Root" and opts.get("root"):
+        name = opts["root"]
     if opts.get("default_registry"):
         # ordinary library use: no registry passed, the process-wide default one (int/float/bool strings) is used
         sreg = dt.registry
@@ -182,9 +184,11 @@ def iter_ptrs(t):
             yield from iter_ptrs(c)
 
 
-def is_tree(reg):
-    """Each non-root model referenced from exactly one class, no self reference, roots unreferenced,
-    everything reachable (the nested layout's stated domain)."""
+def is_tree(reg, roots_referenced=False):
+    """Each non-root model referenced from exactly one class, no self reference, everything reachable (the nested
+    layout's stated domain).  roots_referenced=False: a tree proper, roots unreferenced (C12's domain).
+    roots_referenced=True: root models may be referenced from any number of classes (a child that points back to its
+    root) - C03's claim constrains non-root models only."""
     reach = reachable_models(reg)
     for m in reg.models:
         if m.index not in reach:
@@ -196,7 +200,7 @@ def is_tree(reg):
                 refs[owner.index] = n
         is_root = any(p.parent is None for p in m.pointers)
         if is_root:
-            if refs:
+            if refs and not roots_referenced:
                 return False
         else:
             if len(refs) != 1 or m.index in refs:
